@@ -133,3 +133,26 @@ Theorem C11_rejected_reads_unchanged :
     view q v d' = view q v d.
 Proof. exact c11_rejected_reads_unchanged. Qed.
 Print Assumptions C11_rejected_reads_unchanged.
+
+(* the literal reading of C11: after any sequence of well-formed requests, every read reports what it
+   would report had only the requests answered without an error been issued, in the same order
+   (step_core_eq: requests started from states that agree on the core tables answer the same and
+   leave states that agree on the core tables) ... *)
+Theorem C11_only_successes_matter :
+  forall cf l q v, reqs_wf l ->
+    view q v (run cf db0 l) = view q v (run cf db0 (successes cf db0 l)).
+Proof. exact c11_only_successes_matter. Qed.
+Print Assumptions C11_only_successes_matter.
+
+Theorem C11_step_core_eq :
+  forall cf r d1 d2, core_eq d1 d2 ->
+    core_eq (fst (step cf d1 r)) (fst (step cf d2 r)) /\ snd (step cf d1 r) = snd (step cf d2 r).
+Proof. exact step_core_eq. Qed.
+Print Assumptions C11_step_core_eq.
+
+(* ... and that is the reference semantics applied to the abstract state those requests produce *)
+Theorem C11_reads_are_successful_writes :
+  forall cf l q v, reqs_wf l ->
+    view q v (run cf db0 l) = spec_view q v (abs (run cf db0 (successes cf db0 l))).
+Proof. exact c11_reads_are_successful_writes. Qed.
+Print Assumptions C11_reads_are_successful_writes.
